@@ -98,7 +98,9 @@ func (m *monC04) Event(ev *hermes.VerifEvent, rc *RunCtx) {
 			}
 			return
 		}
-		if g.JTAG != yearLen(date.Y) && !(sc.WeatherFault != "" && date.Y >= sc.FaultFrom.Y && date.Y <= sc.FaultTo.Y) {
+		// a series that stops inside its last year (after everything the run needs) gives that year the number of days it holds
+		lastPartial := sc.Weather.EndsMidYear && len(sc.Weather.Days) > 0 && date.Y == sc.Weather.Days[len(sc.Weather.Days)-1].D.Y
+		if g.JTAG != yearLen(date.Y) && !lastPartial && !(sc.WeatherFault != "" && date.Y >= sc.FaultFrom.Y && date.Y <= sc.FaultTo.Y) {
 			rc.Violate("C04", faultSig(sc, "year_length"), fmt.Sprintf("day %s: year length in use is %d, the calendar says %d", date, g.JTAG, yearLen(date.Y)), z, 0, nil)
 		}
 		// a sentinel on the first day of the first loaded year / last day of the last loaded year of a multi-year file:
